@@ -27,7 +27,8 @@ META = {
     "technique": "Coq proof over a hand-written scope/semantics model + differential execution of the extracted rename "
                  "against `garden reftest-rename` + property-directed search on the binary at every occurrence",
     "level_text": ("Coq theorems rename_exact / rename_exact_sets (the occurrences rewritten by rename are exactly the binder "
-                   "and the uses that resolve to it; every other name is untouched) and rename_fresh_preserves (renaming to a name that does not occur in the program gives a "
+                   "and the uses that resolve to it; every other name is untouched), rename_preserves_resolution (the "
+                   "binding structure is unchanged) and rename_fresh_preserves (renaming to a name that does not occur in the program gives a "
                    "program with the same output and result for every fuel) over the model language: integers, booleans, "
                    "binary operators, variables, let, assignment, if/else blocks, while, closures with value capture, calls, "
                    "println/dbg, top-level functions with parameters. The model is tied to rename.rs / type_checker.rs by "
@@ -37,8 +38,7 @@ META = {
                    "execution, not by proof); the Python printer of model programs; extraction + OCaml glue; hook op `run`. "
                    "for-loop and match binders, strings, lists are covered by the search on the binary with the independent "
                    "Python resolver only, not by the Coq model. rename_preserves_resolution (the resolution table of the renamed "
-                   "program equals the original one) is NOT proved yet; it is only checked on the example and implied "
-                   "dynamically by the text comparison. rename_fresh_preserves is proved for local binders (let, closure "
+                   "program equals the original one) is proved, also for top-level functions. rename_fresh_preserves is proved for local binders (let, closure "
                    "parameter, function parameter), not for renaming a top-level function. The LSP half of the property (same edits) is checked by C29's "
                    "end-to-end part."),
     "design_ref": "DESIGN.md section 5 C19",
